@@ -309,8 +309,38 @@ func npCase(in npIn, tags ...string) caseRec {
 }
 
 // ---- generators ----
+// unknown-field groups (wire types 3/4): protobuf-go skips a well-formed group — also one that uses the number of a
+// known non-group field — and rejects unterminated / mismatched / stray ones
+func groupBytes(r *rand.Rand) []byte {
+	tag := func(field, wt int) []byte { return protowire.AppendTag(nil, protowire.Number(field), protowire.Type(wt)) }
+	f := []int{99, 1, 2, 5, 1000, 3}[r.Intn(6)]
+	inner := [][]byte{nil, {0x08, 0x01}, append(tag(7, 2), 0x02, 0xaa, 0xbb), append(append(tag(8, 3), 0x10, 0x05), tag(8, 4)...),
+		append(tag(9, 1), 1, 2, 3, 4, 5, 6, 7, 8), append(tag(9, 5), 1, 2, 3, 4)}[r.Intn(6)]
+	switch r.Intn(7) {
+	case 0: // unterminated
+		return append(tag(f, 3), inner...)
+	case 1: // end-group of another field
+		return append(append(tag(f, 3), inner...), tag(f+1, 4)...)
+	case 2: // stray end-group
+		return tag(f, 4)
+	default:
+		return append(append(tag(f, 3), inner...), tag(f, 4)...)
+	}
+}
+
 func flipBytes(r *rand.Rand, b []byte) []byte {
 	c := append([]byte(nil), b...)
+	if r.Intn(4) == 0 {
+		g := groupBytes(r)
+		switch r.Intn(3) {
+		case 0:
+			return append(c, g...)
+		case 1:
+			return append(g, c...)
+		default:
+			return append(append(append([]byte(nil), g...), c...), groupBytes(r)...)
+		}
+	}
 	for k := 1 + r.Intn(3); k > 0 && len(c) > 0; k-- {
 		i := r.Intn(len(c))
 		switch r.Intn(4) {
